@@ -17,7 +17,7 @@ def InoInv (d : Disk) : Prop :=
   (∀ n i, Held d n i → i < d.nextIno) ∧ (∀ n m i, Held d n i → Held d m i → n = m)
 
 theorem nextIno_mono (d : Disk) (p : Prim) : d.nextIno ≤ (applyDisk d p).nextIno := by
-  cases p <;> simp only [applyDisk] <;> (try split) <;> simp
+  cases p <;> simp only [applyDisk] <;> (try split) <;> (try split) <;> simp
 
 /-- a primitive moves inodes only between the extensions of one name; the only new inode is
     the one `createPart` allocates. -/
@@ -163,6 +163,24 @@ theorem RecInv_step (s : State) (p : Prim) (hino : InoInv s.disk) (hi : RecInv s
     by_cases hnm : n = m
     · subst hnm; simp at hc
     · simpa [upd_other _ _ _ _ hnm] using hc
+  | rmCmpIf m h0 =>
+    -- the companion either goes (as with `rmCmp`) or everything stays as it is
+    have key : applyDisk d (.rmCmpIf m h0) = d ∨ applyDisk d (.rmCmpIf m h0) = applyDisk d (.rmCmp m) := by
+      simp only [applyDisk]
+      split
+      · split
+        · exact Or.inr rfl
+        · exact Or.inl rfl
+      · exact Or.inl rfl
+    rcases key with key | key
+    · rw [key]; exact hi'
+    · rw [key]
+      apply RecInv_same d _ hi' <;> try (intros; first | rfl | assumption)
+      intro n c hc
+      simp only [applyDisk] at hc
+      by_cases hnm : n = m
+      · subst hnm; simp at hc
+      · simpa [upd_other _ _ _ _ hnm] using hc
   | createPart m now =>
     intro n c hc
     have hc0 : d.cmp n = some c := by
@@ -641,8 +659,9 @@ theorem record_Guards (s : State) (n : Name) (m : Meta) (beg fin now : Int)
       · exact free2 _
     · trivial
 
-/-- the finalize handler: the companion it is about to leave behind for a moment (between
-    the move and the companion's removal) is the one of the version it delivers. -/
+/-- the finalize handler: when neither a `.part` nor a `.full` is staged, the companion it
+    leaves behind at the move (until `rmCmpIf` removes it — which it does only for the version
+    being put away) is the one of the version it delivers. -/
 def FinhOk (s : State) (n : Name) : Prop :=
   ∀ x, s.mem.fq.find? (·.1 == n) = some x → ∀ c, s.disk.cmp n = some c →
     s.disk.part n = none → s.disk.full n = none → c.hash = x.2.hash
